@@ -299,6 +299,7 @@ func c15cases(c *h.Ctx) []fileCase {
 		"env-list-value":     "tasks: {t1: {command: [\"true\"], env: {A: [1]}}}\n",
 		"variables-null":     "variables: {A: null}\ntasks: {t1: {command: [\"echo {{.A}}\"]}}\n",
 	}
+	text["layered-dag-declared-bottom-up"] = layeredDag(30)
 	for k, v := range text {
 		cases = append(cases, fileCase{name: "text:" + k, ext: ".yaml", content: v})
 	}
@@ -365,6 +366,23 @@ func c15cases(c *h.Ctx) []fileCase {
 	cases = append(cases, fileCase{name: "env_file:directory", ext: ".yaml", content: ef, aux: map[string]string{"custom.env/x": "1"}})
 	cases = append(cases, fileCase{name: "env_file:absolute-missing", ext: ".yaml", content: strings.Replace(ef, "custom.env", "/nonexistent/dir/x.env", 1)})
 	return cases
+}
+
+// layeredDag: two stages per layer, each depending on both stages of the previous layer, declared from the
+// last layer to the first (acyclic; the number of paths is 2^layers).
+func layeredDag(layers int) string {
+	var b strings.Builder
+	b.WriteString("tasks:\n  t: {command: [\"true\"]}\npipelines:\n  p:\n")
+	for l := layers - 1; l >= 0; l-- {
+		for k := 0; k < 2; k++ {
+			fmt.Fprintf(&b, "    - {name: \"l%dk%d\", task: t", l, k)
+			if l > 0 {
+				fmt.Fprintf(&b, ", depends_on: [\"l%dk0\", \"l%dk1\"]", l-1, l-1)
+			}
+			b.WriteString("}\n")
+		}
+	}
+	return b.String()
 }
 
 func manyTasks(n int) string {
